@@ -1,10 +1,518 @@
-/* mc_decode_lattice.h -- C11 / C12 oracles on the lattices of the H7 exploration (placeholder until built) */
+/* mc_decode_lattice.h -- C11 (lattice well-formedness) and C12 (N-best / best path / posteriors) on the
+ * lattice of every explored utterance.  The lattice is read through its public structures
+ * (lattice.h); the reference enumerates all start-to-end paths (bounded) and runs a long-double
+ * forward-backward over the same link scores. */
 #ifndef MC_DECODE_LATTICE_H
 #define MC_DECODE_LATTICE_H
+#include <soundswallower/lattice.h>
+
+#define LT_MAXN 512
+#define LT_MAXPATH 20000
+static latnode_t *LT_NODE[LT_MAXN];
+static int LT_N;
+
+static int
+lt_index(latnode_t *n)
+{
+    int i;
+    for (i = 0; i < LT_N; i++)
+        if (LT_NODE[i] == n)
+            return i;
+    return -1;
+}
+
+static const char *
+lt_word(latnode_t *n)
+{
+    const char *w = dict_wordstr(D->dict, n->wid);
+    return w ? w : "(?)";
+}
+
+static int
+lt_is_artificial(latnode_t *n)
+{
+    const char *w = lt_word(n);
+    return strcmp(w, "<s>") == 0 || strcmp(w, "</s>") == 0;
+}
+
+/* label of a node in the input grammar's vocabulary: >= 0 word index, -1 filler (consumes nothing), -2 unknown */
+static int
+lt_label(const gspec_t *g, latnode_t *n)
+{
+    char base[48];
+    const char *w = lt_word(n);
+    int k;
+    if (is_filler_word(w))
+        return -1;
+    dc_base(w, base, sizeof base);
+    for (k = 0; k < g->nwords; k++)
+        if (strcmp(g->words[k], base) == 0)
+            return k;
+    return -2;
+}
+
+/* grammar state sets as bit masks over the (<= 16) states of the input grammar */
+static unsigned
+lt_closure(unsigned set)
+{
+    int ch = 1, i;
+    while (ch) {
+        ch = 0;
+        for (i = 0; i < CUR_REF.narcs; i++)
+            if (CUR_REF.arcs[i].label == RG_EPS && (set >> CUR_REF.arcs[i].from & 1) && !(set >> CUR_REF.arcs[i].to & 1)) {
+                set |= 1u << CUR_REF.arcs[i].to;
+                ch = 1;
+            }
+    }
+    return set;
+}
+static unsigned
+lt_step(unsigned set, int label)
+{
+    unsigned out = 0;
+    int i;
+    if (label == -1)
+        return set;
+    for (i = 0; i < CUR_REF.narcs; i++)
+        if (CUR_REF.arcs[i].label == label && (set >> CUR_REF.arcs[i].from & 1))
+            out |= 1u << CUR_REF.arcs[i].to;
+    return lt_closure(out);
+}
+
+/* all start-to-end paths: projection string and score */
+typedef struct {
+    char proj[160];
+    int score;
+} lt_path;
+static lt_path *LT_PATHS;
+static int LT_NPATHS, LT_PATHS_COMPLETE;
+
+static void
+lt_enum(latnode_t *n, latnode_t *end, int score, char *proj, size_t plen, int depth)
+{
+    latlink_list_t *x;
+    size_t l0 = plen;
+    if (depth > LT_MAXN || !LT_PATHS_COMPLETE)
+        return;
+    if (dict_real_word(D->dict, n->basewid)) {
+        const char *w = dict_wordstr(D->dict, n->basewid);
+        plen += snprintf(proj + plen, 160 - plen, "%s%s", plen ? " " : "", w);
+        if (plen >= 159)
+            plen = 159;
+    }
+    if (n == end) {
+        if (LT_NPATHS == LT_MAXPATH)
+            LT_PATHS_COMPLETE = 0;
+        else {
+            snprintf(LT_PATHS[LT_NPATHS].proj, sizeof LT_PATHS[0].proj, "%s", proj);
+            LT_PATHS[LT_NPATHS].score = score;
+            LT_NPATHS++;
+        }
+    } else
+        for (x = n->exits; x; x = x->next)
+            lt_enum(x->link->to, end, score + x->link->ascr, proj, plen, depth + 1);
+    proj[l0] = 0;
+}
+
+/* can segments k.. be matched to a chain of nodes, the first of which follows `prev` over a link ending at prev_ef? */
+static int
+lt_chain(const dc_seg_t **segs, int ns, int k, latnode_t *prev, int prev_ef, int *fail_at, const char **why)
+{
+    int j, any_node = 0, any_link = 0;
+    latlink_list_t *x;
+    if (k == ns)
+        return 1;
+    for (j = 0; j < LT_N; j++) {
+        latnode_t *n = LT_NODE[j];
+        int linked = prev == NULL;
+        if (n->sf != segs[k]->sf || strcmp(lt_word(n), segs[k]->word) != 0)
+            continue;
+        any_node = 1;
+        if (prev)
+            for (x = prev->exits; x; x = x->next)
+                if (x->link->to == n && x->link->ef == prev_ef)
+                    linked = 1;
+        if (!linked)
+            continue;
+        any_link = 1;
+        if (segs[k]->ef < n->fef || segs[k]->ef > n->lef)
+            continue;
+        if (lt_chain(segs, ns, k + 1, n, segs[k]->ef, fail_at, why))
+            return 1;
+    }
+    if (*fail_at < k) {
+        *fail_at = k;
+        *why = !any_node ? "node-missing" : !any_link ? "link-missing" : "end-frame-outside-node";
+    }
+    return 0;
+}
+
 static int
 check_lattice(const gspec_t *g, const dc_result_t *R, int T, const char *cd, const char *when)
 {
-    (void)g; (void)R; (void)T; (void)cd; (void)when;
+    lattice_t *dag = decoder_lattice(D), *dag2;
+    latnode_t *n;
+    latlink_list_t *x;
+    int i, nlinks = 0, order[LT_MAXN], norder = 0, indeg[LT_MAXN];
+    unsigned char fwd[LT_MAXN], bwd[LT_MAXN];
+    char rs[1500];
+    (void)T;
+    if (dag == NULL) {
+        if (decoder_lattice(D) != NULL) {
+            mc_viol("C11/second-call-differs", cd, "%s: decoder_lattice returned NULL, then a lattice, without new audio", when);
+            return -1;
+        }
+        return 0;
+    }
+    mc_count(3, 1);
+    dc_result_str(R, rs, sizeof rs);
+    LT_N = 0;
+    for (n = dag->nodes; n; n = n->next) {
+        if (LT_N == LT_MAXN)
+            return 0; /* larger than the harness tables: cannot happen within the bounds */
+        LT_NODE[LT_N++] = n;
+    }
+    if (!dag->start || !dag->end || lt_index(dag->start) < 0 || lt_index(dag->end) < 0) {
+        mc_viol("C11/start-or-end-node-missing", cd, "%s: start %p end %p not among the %d nodes; %s", when, (void *)dag->start, (void *)dag->end, LT_N, rs);
+        return -1;
+    }
+    /* links: endpoints are nodes, times consistent */
+    memset(indeg, 0, sizeof indeg);
+    for (i = 0; i < LT_N; i++) {
+        n = LT_NODE[i];
+        if (n->sf < 0 || n->sf > dag->n_frames || (n->sf == dag->n_frames && !lt_is_artificial(n))) {
+            mc_viol("C11/node-outside-utterance", cd, "%s: node %s starts at frame %d of %d; %s", when, lt_word(n), n->sf, dag->n_frames, rs);
+            return -1;
+        }
+        for (x = n->exits; x; x = x->next) {
+            latlink_t *l = x->link;
+            int to = lt_index(l->to);
+            nlinks++;
+            if (l->from != n || to < 0) {
+                mc_viol("C11/dangling-link", cd, "%s: node %s.%d has an exit link whose endpoints are not nodes of the lattice; %s", when, lt_word(n), n->sf, rs);
+                return -1;
+            }
+            indeg[to]++;
+            if (!lt_is_artificial(n) && !lt_is_artificial(l->to)) {
+                if (l->ef + 1 != l->to->sf || l->ef < n->sf || l->ef >= dag->n_frames) {
+                    mc_viol("C11/link-times-inconsistent", cd, "%s: link %s.%d -> %s.%d says the first word ends at frame %d (utterance has %d frames); %s", when,
+                            lt_word(n), n->sf, lt_word(l->to), l->to->sf, l->ef, dag->n_frames, rs);
+                    return -1;
+                }
+            }
+        }
+    }
+    /* single start / single end, every node on a start-to-end path, acyclic */
+    memset(fwd, 0, sizeof fwd);
+    memset(bwd, 0, sizeof bwd);
+    {
+        int stack[LT_MAXN * 4], sp = 0;
+        fwd[lt_index(dag->start)] = 1;
+        stack[sp++] = lt_index(dag->start);
+        while (sp) {
+            n = LT_NODE[stack[--sp]];
+            for (x = n->exits; x; x = x->next) {
+                int to = lt_index(x->link->to);
+                if (!fwd[to]) {
+                    fwd[to] = 1;
+                    stack[sp++] = to;
+                }
+            }
+        }
+        bwd[lt_index(dag->end)] = 1;
+        stack[sp++] = lt_index(dag->end);
+        while (sp) {
+            n = LT_NODE[stack[--sp]];
+            for (x = n->entries; x; x = x->next) {
+                int fr = lt_index(x->link->from);
+                if (fr >= 0 && !bwd[fr]) {
+                    bwd[fr] = 1;
+                    stack[sp++] = fr;
+                }
+            }
+        }
+    }
+    for (i = 0; i < LT_N; i++) {
+        n = LT_NODE[i];
+        if (n != dag->start && n->entries == NULL) {
+            mc_viol("C11/more-than-one-start", cd, "%s: node %s.%d has no entries but is not the start node %s.%d; %s", when, lt_word(n), n->sf,
+                    lt_word(dag->start), dag->start->sf, rs);
+            return -1;
+        }
+        if (n != dag->end && n->exits == NULL) {
+            mc_viol("C11/more-than-one-end", cd, "%s: node %s.%d has no exits but is not the end node %s.%d; %s", when, lt_word(n), n->sf, lt_word(dag->end),
+                    dag->end->sf, rs);
+            return -1;
+        }
+        if (!fwd[i] || !bwd[i]) {
+            mc_viol("C11/node-not-on-a-start-to-end-path", cd, "%s: node %s.%d is %s; %s", when, lt_word(n), n->sf,
+                    !fwd[i] ? "not reachable from the start node" : "cannot reach the end node", rs);
+            return -1;
+        }
+    }
+    if (dag->start->entries != NULL || dag->end->exits != NULL) {
+        mc_viol("C11/start-has-entries-or-end-has-exits", cd, "%s: start node %s.%d / end node %s.%d; %s", when, lt_word(dag->start), dag->start->sf,
+                lt_word(dag->end), dag->end->sf, rs);
+        return -1;
+    }
+    /* topological order (Kahn); failure = cycle */
+    {
+        int q[LT_MAXN], qh = 0, qt = 0, deg[LT_MAXN];
+        memcpy(deg, indeg, sizeof deg);
+        for (i = 0; i < LT_N; i++)
+            if (deg[i] == 0)
+                q[qt++] = i;
+        while (qh < qt) {
+            int k = q[qh++];
+            order[norder++] = k;
+            for (x = LT_NODE[k]->exits; x; x = x->next) {
+                int to = lt_index(x->link->to);
+                if (--deg[to] == 0)
+                    q[qt++] = to;
+            }
+        }
+        if (norder != LT_N) {
+            mc_viol("C11/lattice-has-a-cycle", cd, "%s: %d of %d nodes can be ordered topologically; %s", when, norder, LT_N, rs);
+            return -1;
+        }
+    }
+    /* every path's label sequence is a grammar path from the start state: exact DP over (node, grammar state set) */
+    {
+        static unsigned short fam[LT_MAXN][1 << 4]; /* fam[node][k] != 0: state set with index... */
+        static unsigned sets[LT_MAXN][64];
+        static int nsets[LT_MAXN];
+        int ns = CUR_REF.n;
+        (void)fam;
+        if (ns <= 16) {
+            for (i = 0; i < LT_N; i++)
+                nsets[i] = 0;
+            for (i = 0; i < norder; i++) {
+                int k = order[i], j, lab;
+                n = LT_NODE[k];
+                lab = lt_label(g, n);
+                if (lab == -2) {
+                    mc_viol("C11/word-not-in-grammar", cd, "%s: lattice node %s.%d carries a word the grammar does not contain; %s", when, lt_word(n), n->sf, rs);
+                    return -1;
+                }
+                if (n == dag->start) {
+                    sets[k][0] = lt_closure(1u << CUR_REF.start);
+                    nsets[k] = 1;
+                }
+                /* consume this node's label in every set that reached it */
+                for (j = 0; j < nsets[k]; j++) {
+                    sets[k][j] = lt_step(sets[k][j], lab);
+                    if (sets[k][j] == 0) {
+                        mc_viol("C11/path-is-not-a-grammar-path", cd,
+                                "%s: some path of the lattice up to node %s.%d spells a word sequence that is not a path from the grammar's start state; %s", when,
+                                lt_word(n), n->sf, rs);
+                        return -1;
+                    }
+                }
+                for (x = n->exits; x; x = x->next) {
+                    int to = lt_index(x->link->to), a, b;
+                    for (a = 0; a < nsets[k]; a++) {
+                        for (b = 0; b < nsets[to]; b++)
+                            if (sets[to][b] == sets[k][a])
+                                break;
+                        if (b == nsets[to] && nsets[to] < 64)
+                            sets[to][nsets[to]++] = sets[k][a];
+                    }
+                }
+            }
+        }
+    }
+    /* the first-best segmentation appears as a chain of linked nodes (search over all candidate nodes) */
+    {
+        const dc_seg_t *segs[MAXSEG];
+        int ns = 0, fail_at = -1;
+        const char *fail_why = "";
+        for (i = 0; i < R->nseg; i++)
+            if (strcmp(R->seg[i].word, "(NULL)") != 0)
+                segs[ns++] = &R->seg[i];
+        if (ns > 0 && !lt_chain(segs, ns, 0, NULL, -1, &fail_at, &fail_why)) {
+            char sig[96];
+            snprintf(sig, sizeof sig, "C11/first-best-not-a-lattice-path:%s%s", fail_why, ns == 1 ? ":one-word-result" : "");
+            mc_viol(sig, cd, "%s: segment %s %d-%d of the first-best result: %s; %s", when, segs[fail_at]->word, segs[fail_at]->sf, segs[fail_at]->ef,
+                    fail_why, rs);
+            return -1;
+        }
+    }
+    dag2 = decoder_lattice(D);
+    if (dag2 != dag) {
+        mc_viol("C11/second-call-differs", cd, "%s: a second decoder_lattice call without new audio returned a different object", when);
+        return -1;
+    }
+    if (!P_C12)
+        return 0;
+
+    /* ---------------- C12 ---------------- */
+    {
+        char proj[160] = "";
+        float32 ascale = (float32)(1.0 / config_float(D->config, "ascale"));
+        int best = INT_MIN, k;
+        latlink_t *bl;
+        if (!LT_PATHS)
+            LT_PATHS = malloc(sizeof(lt_path) * LT_MAXPATH);
+        LT_NPATHS = 0;
+        LT_PATHS_COMPLETE = 1;
+        lt_enum(dag->start, dag->end, 0, proj, 0, 0);
+        for (k = 0; k < LT_NPATHS; k++)
+            if (LT_PATHS[k].score > best)
+                best = LT_PATHS[k].score;
+        /* best path */
+        bl = lattice_bestpath(dag, ascale);
+        if (dag->start != dag->end) {
+            if (bl == NULL) {
+                mc_viol("C12/bestpath-finds-nothing", cd, "%s: lattice_bestpath returned NULL on a lattice with %d paths; %s", when, LT_NPATHS, rs);
+                return -1;
+            }
+            if (LT_PATHS_COMPLETE && bl->path_scr + dag->final_node_ascr != best) {
+                mc_viol("C12/bestpath-not-the-highest-scoring-path", cd, "%s: best path score %d, the best of all %d start-to-end paths scores %d; %s", when,
+                        bl->path_scr + dag->final_node_ascr, LT_NPATHS, best, rs);
+                return -1;
+            }
+            {
+                const char *bh = lattice_hyp(dag, bl);
+                int ok = 0;
+                for (k = 0; k < LT_NPATHS; k++)
+                    if (LT_PATHS[k].score == bl->path_scr + dag->final_node_ascr && strcmp(LT_PATHS[k].proj, bh ? bh : "") == 0)
+                        ok = 1;
+                if (LT_PATHS_COMPLETE && !ok) {
+                    mc_viol("C12/bestpath-hypothesis-not-a-path", cd, "%s: best path hypothesis \"%s\" (score %d) is not the word sequence of a path with that score; %s",
+                            when, bh ? bh : "(null)", bl->path_scr, rs);
+                    return -1;
+                }
+            }
+            /* posteriors: long-double forward/backward over the same link scores */
+            {
+                int32 post = lattice_posterior(dag, ascale);
+                long double delta = 2.0L + 1.0L * nlinks, fwd_total, bwd_total;
+                static long double A[LT_MAXN * 8], B[LT_MAXN * 8];
+                static latlink_t *LK[LT_MAXN * 8];
+                int nl = 0, a, b;
+                long double lb = logl((long double)logmath_get_base(dag->lmath));
+#define LADD(x, y) ((x) == -HUGE_VALL ? (y) : (y) == -HUGE_VALL ? (x) : ((x) > (y) ? (x) + log1pl(expl(((y) - (x)) * lb)) / lb : (y) + log1pl(expl(((x) - (y)) * lb)) / lb))
+                /* links in topological order of their source node */
+                for (i = 0; i < norder; i++)
+                    for (x = LT_NODE[order[i]]->exits; x; x = x->next)
+                        if (nl < LT_MAXN * 8)
+                            LK[nl++] = x->link;
+                for (a = 0; a < nl; a++) {
+                    long double sc = (long double)(int32)((LK[a]->ascr << SENSCR_SHIFT) * ascale);
+                    A[a] = -HUGE_VALL;
+                    if (LK[a]->from == dag->start)
+                        A[a] = sc;
+                    else
+                        for (b = 0; b < a; b++)
+                            if (LK[b]->to == LK[a]->from)
+                                A[a] = LADD(A[a], A[b] + sc);
+                }
+                fwd_total = -HUGE_VALL;
+                for (a = 0; a < nl; a++)
+                    if (LK[a]->to == dag->end)
+                        fwd_total = LADD(fwd_total, A[a]);
+                for (a = nl - 1; a >= 0; a--) {
+                    B[a] = -HUGE_VALL;
+                    if (LK[a]->to == dag->end)
+                        B[a] = 0;
+                    else
+                        for (b = a + 1; b < nl; b++)
+                            if (LK[b]->from == LK[a]->to)
+                                B[a] = LADD(B[a], B[b] + (long double)(int32)((LK[b]->ascr << SENSCR_SHIFT) * ascale));
+                }
+                bwd_total = -HUGE_VALL;
+                for (a = 0; a < nl; a++)
+                    if (LK[a]->from == dag->start)
+                        bwd_total = LADD(bwd_total, B[a] + (long double)(int32)((LK[a]->ascr << SENSCR_SHIFT) * ascale));
+                if (fabsl(fwd_total - (long double)dag->norm) > delta) {
+                    mc_viol("C12/forward-total-wrong", cd, "%s: normaliser %d, forward total over all paths %.2Lf (tolerance %.0Lf); %s", when, dag->norm, fwd_total,
+                            delta, rs);
+                    return -1;
+                }
+                {
+                    /* the library's own backward total */
+                    int32 lib_bwd = logmath_get_zero(dag->lmath);
+                    for (x = dag->start->exits; x; x = x->next)
+                        lib_bwd = logmath_add(dag->lmath, lib_bwd, x->link->beta + (int32)((x->link->ascr << SENSCR_SHIFT) * ascale));
+                    if (fabsl((long double)lib_bwd - (long double)dag->norm) > 2 * delta || fabsl(bwd_total - fwd_total) > 1e-3L) {
+                        mc_viol("C12/forward-and-backward-totals-disagree", cd, "%s: forward total %d, backward total %d (reference %.2Lf / %.2Lf); %s", when,
+                                dag->norm, lib_bwd, fwd_total, bwd_total, rs);
+                        return -1;
+                    }
+                }
+                for (a = 0; a < nl; a++) {
+                    int32 ascr, p = ps_latlink_prob(dag, LK[a], &ascr);
+                    long double ref = A[a] + B[a] - fwd_total;
+                    if ((long double)p > delta) {
+                        mc_viol("C12/link-posterior-above-one", cd, "%s: link %s.%d -> %s.%d has log posterior %d > 0 (tolerance %.0Lf); %s", when,
+                                lt_word(LK[a]->from), LK[a]->from->sf, lt_word(LK[a]->to), LK[a]->to->sf, p, delta, rs);
+                        return -1;
+                    }
+                    if (fabsl((long double)p - ref) > 3 * delta) {
+                        mc_viol("C12/link-posterior-wrong", cd, "%s: link %s.%d -> %s.%d has log posterior %d, forward-backward gives %.2Lf (tolerance %.0Lf); %s",
+                                when, lt_word(LK[a]->from), LK[a]->from->sf, lt_word(LK[a]->to), LK[a]->to->sf, p, ref, 3 * delta, rs);
+                        return -1;
+                    }
+                }
+                if ((long double)post > delta) {
+                    mc_viol("C12/best-path-posterior-above-one", cd, "%s: log posterior of the best path %d > 0 (tolerance %.0Lf); %s", when, post, delta, rs);
+                    return -1;
+                }
+            }
+        }
+        /* N-best */
+        {
+            hyp_iter_t *it;
+            int prev = INT_MAX, nh = 0, first = 1;
+            static unsigned char seen[LT_MAXPATH];
+            memset(seen, 0, LT_NPATHS);
+            for (it = decoder_nbest(D); it; it = hyp_iter_next(it)) {
+                int32 sc = 0;
+                const char *h = hyp_iter_hyp(it, &sc);
+                int ok = 0;
+                nh++;
+                mc_count(6, 1);
+                if (sc > prev) {
+                    mc_viol("C12/nbest-scores-increase", cd, "%s: hypothesis %d scores %d after %d; %s", when, nh, sc, prev, rs);
+                    hyp_iter_free(it);
+                    return -1;
+                }
+                prev = sc;
+                if (LT_PATHS_COMPLETE) {
+                    for (k = 0; k < LT_NPATHS; k++)
+                        if (LT_PATHS[k].score == sc && strcmp(LT_PATHS[k].proj, h ? h : "") == 0) {
+                            ok = 1;
+                            seen[k] = 1;
+                        }
+                    if (!ok) {
+                        mc_viol("C12/nbest-hypothesis-not-a-lattice-path", cd, "%s: hypothesis %d \"%s\" with score %d is not the word sequence of a start-to-end path with that score; %s",
+                                when, nh, h ? h : "(null)", sc, rs);
+                        hyp_iter_free(it);
+                        return -1;
+                    }
+                    if (first && sc != best) {
+                        mc_viol("C12/nbest-first-is-not-the-best-path", cd, "%s: first hypothesis scores %d, the best path %d; %s", when, sc, best, rs);
+                        hyp_iter_free(it);
+                        return -1;
+                    }
+                }
+                first = 0;
+                if (nh >= 3000) {
+                    hyp_iter_free(it);
+                    break;
+                }
+            }
+            if (LT_PATHS_COMPLETE && nh < 3000 && LT_NPATHS <= 400) {
+                /* the list ended by itself and the agenda cap (500) was never binding: every path must have been listed */
+                for (k = 0; k < LT_NPATHS; k++)
+                    if (!seen[k]) {
+                        mc_viol("C12/nbest-misses-a-path", cd, "%s: the N-best list ended after %d hypotheses without \"%s\" (score %d), a start-to-end path; %s", when,
+                                nh, LT_PATHS[k].proj, LT_PATHS[k].score, rs);
+                        return -1;
+                    }
+            }
+        }
+    }
     return 0;
 }
 #endif
